@@ -33,13 +33,17 @@ RULE = ("(a) Hypothesis draws conflict-free definition closures (1-6 files, 1-3 
         "namespaces (also against core names), ids outside their range on each side (message, reserved, module, host); the two items are "
         "placed in the same file, parent/child, siblings, cousins (both orders); reserved ranges in every spelling with the colliding id at "
         "the start, middle and end; the full table is enumerated in both tiers (core definitions imported where the kind needs them, for every other case in thorough and a rotating quarter in quick) and random combinations are drawn on random graphs (a quarter of them with the core imported). The parser "
-        "must raise the matching ParserError subclass. Non-trivial = (a) a graph in which some file is reachable by >= 2 import paths or lies on "
+        "must raise the matching ParserError subclass. (c) histories: 2-3 parses on ONE Parser object in one directory - first one or two "
+        "closures that abort (import of a missing file, message without id, definition without fields, signal used as field type, or a "
+        "conflict), then the corrected conflict-free closure or a single-conflict closure in the same files - the last parse must give the "
+        "verdict of a fresh parser (registered union / conflict class). Non-trivial = (a) a graph in which some file is reachable by >= 2 import paths or lies on "
         "a cycle, (b) a conflict whose two items are in different files; distinct = (a) (shape, #files, graph classes, core imported, "
         "namespaces used), (b) (kind, placement, order, spelling/position/value, core imported).")
 ASSUME = [
     "message ids are valid in 0..10000 and 10000 itself is a don't-care (message text and code disagree); module ids 10..99 or >= 200 with 200 a don't-care; host ids 1..32767",
     "module and host id RANGE checks exist only when the core definitions are imported, so range conflicts are generated only there",
     "two identical keys in one YAML mapping are rejected by the YAML loader first: YAMLSyntaxError is accepted for a name collision inside one section of one file",
+    "nothing is claimed about what a Parser object accumulates after a SUCCESSFUL parse (tests/test_parser.py relies on accumulation); histories only continue after aborted parses",
     "duplicate module or host NAMES are outside the statement (those have their own namespaces) and are never used as the expected conflict",
     "a reserved range longer than 100 ids or written start > end is a syntax matter, not a conflict, and is not generated",
     "the documented spelling 'A:B' of a reserved range is rejected by the parser as a syntax error whether or not anything collides (doc/code mismatch, noted, outside this property); the generator uses ints, 'A - B', 'A-B' and 'A to B'",
@@ -72,9 +76,9 @@ def _denoted(literal: str):
 ALLOW = ("alias-of-imported-struct", "alias-of-imported-struct-field", "struct-contains-message", "string-special", "prefix-names")
 
 
-def check_free(p: G.Program, res: Result = None):
-    trace = {"mode": "free", "program": p.to_json()}
-    out = G.parse_program(p)
+def check_free(p: G.Program, res: Result = None, out=None, trace=None):
+    trace = trace or {"mode": "free", "program": p.to_json()}
+    out = out or G.parse_program(p)
     if not out.ok:
         cls = out.outcome
         fam = "conflict-invented" if cls in CONFLICT_CLASSES else "crash"
@@ -134,10 +138,10 @@ GRAPH_CLASSES = {"single", "chain", "tree", "diamond", "dag", "repeat", "respell
 # (b) one conflict
 
 
-def check_conflict(p: G.Program, res: Result = None):
+def check_conflict(p: G.Program, res: Result = None, out=None, trace=None):
     c = p.conflict
-    trace = {"mode": "conflict", "program": p.to_json()}
-    out = G.parse_program(p)
+    trace = trace or {"mode": "conflict", "program": p.to_json()}
+    out = out or G.parse_program(p)
     tag = c["kind"]
     where = f"{c['placement']}{' (swapped)' if c['swap'] else ''}, files {c['files']}, items {c['names']}"
     if out.ok:
@@ -214,6 +218,121 @@ def run_table(idx: int, nshards: int, res: Result, seed: int = 0, full: bool = T
 
 
 # ----------------------------------------------------------------------------------------------
+# histories: several parses on ONE Parser object
+
+
+def _parse_on(ps, p: G.Program, d: str) -> G.ParseOutcome:
+    """Overwrite directory ``d`` with closure p and parse it with the given (possibly used) Parser."""
+    for name in os.listdir(d):
+        shutil.rmtree(os.path.join(d, name), ignore_errors=True) if os.path.isdir(os.path.join(d, name)) else os.remove(os.path.join(d, name))
+    root = p.write(d)
+    cwd = os.getcwd()
+    try:
+        ps.parse(root)
+        return G.ParseOutcome("ok", ps, None, root)
+    except BaseException as e:  # noqa
+        if isinstance(e, (KeyboardInterrupt, SystemExit)):
+            raise
+        return G.ParseOutcome(type(e).__name__, None, e, root)
+    finally:
+        os.chdir(cwd)
+
+
+def check_history(steps, res: Result = None):
+    """steps: closures parsed one after the other by ONE Parser in ONE directory (the later ones overwrite the files of the earlier
+    ones).  All but the last are expected to fail (generated faults: missing import file, definition without id / fields, signal
+    used as a field type, or a genuine conflict); a failed parse must leave nothing behind: the last closure - conflict-free or with
+    exactly one conflict - must get the verdict a fresh Parser gives it (the registered union, or the conflict's exception)."""
+    import logging
+    from pyrtma.parser import Parser
+
+    last = steps[-1]
+    trace = {"mode": "history", "steps": [q.to_json() for q in steps]}
+    d = G.scratch_dir("c12hist")
+    ps = Parser(**last.compile_kwargs())
+    kinds = []
+    try:
+        for q in steps[:-1]:
+            out = _parse_on(ps, q, d)
+            kinds.append(f"{(q.fault or {}).get('kind') or (q.conflict or {}).get('kind', '?')}->{out.outcome}")
+            if out.ok:
+                return  # the premise (an aborted parse) does not hold: nothing is claimed about accumulation after a success
+        out = _parse_on(ps, last, d)
+        first = steps[0]
+        fk = (first.fault or {}).get("kind") or "conflict"
+        try:
+            if last.conflict:
+                check_conflict(last, None, out=out, trace=trace)
+            else:
+                check_free(last, None, out=out, trace=trace)
+        except Violation as v:
+            raise Violation(f"history/after-{fk}/{'/'.join(v.key.split('/')[:2])}", f"one Parser object, earlier parses {kinds} (each aborted), then the "
+                            f"{'single-conflict' if last.conflict else 'conflict-free'} closure in the same files: {v.what}", trace)
+        if res is not None:
+            res.count("histories")
+            res.count("history/first-failure/" + fk)
+            res.count("history/last/" + ("conflict" if last.conflict else "free"))
+            res.shape("history", tuple(k.split("->")[0].split("/")[0] for k in kinds), tuple(k.split("->")[1] for k in kinds),
+                      (last.conflict or {}).get("kind", "free").split("/")[0], (first.fault or {}).get("file") == first.root, last.import_coredefs)
+    finally:
+        for h in list(ps.logger.handlers):
+            ps.logger.removeHandler(h)
+        logging.Logger.manager.loggerDict.pop(ps.logger.name, None)
+        shutil.rmtree(d, ignore_errors=True)
+
+
+def build_history(ch: G.Chooser, core: bool = False):
+    base = G.build_program(ch, import_coredefs=core, skeleton=ch.chance(0.5), min_files=2, allow=ALLOW)
+    steps = []
+    for _ in range(ch.integer(1, 2)):
+        kind = ch.choice(G.FAULT_KINDS + ["conflict"])
+        if kind == "conflict":
+            pls = [pl for pl in G.PLACEMENTS if G.file_pairs(base, pl)]
+            q = G.inject_conflict(base, ch.choice(["msgid/msg-msg", "name/constant-struct", "modid/dup", "msgid/signal-reserved"]), ch.choice(pls), ch)
+            q.options["import_coredefs"] = core
+        else:
+            q = G.inject_fault(base, kind, ch, where=ch.choice([None, "root", "leaf"]))
+        steps.append(q)
+    if ch.chance(0.5):
+        steps.append(base)
+    else:
+        pls = [pl for pl in G.PLACEMENTS if G.file_pairs(base, pl)]
+        kinds = [k for k in G.CONFLICT_KINDS if k not in G.NEEDS_CORE or core]
+        q = G.inject_conflict(base, ch.choice(kinds), ch.choice(pls), ch, swap=ch.chance(0.5))
+        steps.append(q)
+    return steps
+
+
+def histories(core: bool = False):
+    from hypothesis import strategies as st
+
+    G.core_defs()
+
+    @st.composite
+    def _h(draw):
+        return build_history(G.HypChooser(draw), core)
+
+    return _h()
+
+
+def history_table(res: Result):
+    """Every fault kind at the root and at a leaf file, followed by the corrected closure and by two single-conflict closures."""
+    base = table_bases()[0]
+    for i, kind in enumerate(G.FAULT_KINDS + ["conflict"]):
+        for where in ("root", "leaf"):
+            ch = G.RandomChooser(100 + i)
+            first = (G.inject_fault(base, kind, ch, where=where) if kind != "conflict"
+                     else G.inject_conflict(base, "msgid/msg-signal", "cousins", ch))
+            for last in (base, G.inject_conflict(base, "msgid/msg-msg", "parent-child", ch), G.inject_conflict(base, "name/alias-message", "siblings", ch),
+                         G.inject_conflict(base, "hostid/dup", "same", ch)):
+                res.evaluations += 1
+                try:
+                    check_history([first, last], res)
+                except Violation as v:
+                    res.add_finding(v.key, v.what, v.trace)
+
+
+# ----------------------------------------------------------------------------------------------
 # command line sample (thorough)
 
 
@@ -250,7 +369,7 @@ def cli_case(p: G.Program, res: Result):
 # ----------------------------------------------------------------------------------------------
 
 
-def shard(idx: int, nshards: int, seed: int, n_free: int, n_conf: int, n_cli: int, vseed: int = 0, full: bool = True):
+def shard(idx: int, nshards: int, seed: int, n_free: int, n_conf: int, n_cli: int, vseed: int = 0, full: bool = True, n_hist: int = 40):
     G.quiet()
     res = Result()
     run_table(idx, nshards, res, seed=vseed, full=full)
@@ -262,6 +381,11 @@ def shard(idx: int, nshards: int, seed: int, n_free: int, n_conf: int, n_cli: in
         sb = G.ShrinkBudget(15)
         hyp_run(sb.body(lambda p: check_conflict(p, res)), sb.wrap(G.conflict_programs(import_coredefs=core, allow=ALLOW)),
                 seed + 10 * k + 1, max(1, n_conf * share // 4), res)
+    if idx == 2:
+        history_table(res)
+    for k, core in enumerate((False, True)):
+        sb = G.ShrinkBudget(15)
+        hyp_run(sb.body(lambda st_: check_history(st_, res)), sb.wrap(histories(core)), seed + 20 + k, max(1, n_hist * (1 if core else 4) // 5), res)
     if n_cli:
         rnd = G.RandomChooser(seed + 2)
         for k in range(n_cli):
@@ -283,7 +407,7 @@ def run(ctx: RunContext) -> int:
     n_free = ctx.scale(200, 2500)
     n_conf = ctx.scale(160, 2500)
     n_cli = 0 if ctx.quick else 6
-    res = run_shards(shard, [(i, 16, derive_seed(ctx.seed, i), n_free, n_conf, n_cli, ctx.seed, not ctx.quick) for i in range(16)])
+    res = run_shards(shard, [(i, 16, derive_seed(ctx.seed, i), n_free, n_conf, n_cli, ctx.seed, not ctx.quick, ctx.scale(40, 1500)) for i in range(16)])
     res.notes.append(f"the conflict table ({len(G.all_conflict_cases())} kind x placement x order x spelling x position x value cases) was enumerated "
                      "completely: kinds that need the core definitions with them, all others without; the latter additionally with the core "
                      + ("for every case" if not ctx.quick else "for a quarter of the cases (rotating with the seed; every case in thorough)"))
@@ -292,11 +416,13 @@ def run(ctx: RunContext) -> int:
 
 def replay_trace(trace: dict):
     G.quiet()
-    p = G.Program.from_json(trace["program"])
+    p = G.Program.from_json(trace["program"]) if "program" in trace else None
     if trace["mode"] == "free":
         check_free(p)
     elif trace["mode"] == "conflict":
         check_conflict(p)
+    elif trace["mode"] == "history":
+        check_history([G.Program.from_json(q) for q in trace["steps"]])
     elif trace["mode"] == "cli":
         cli_case(p, Result())
     else:
